@@ -78,6 +78,34 @@ theorem lineAct_prefixLine (names : List (List Char)) (nm text : List Char)
       simpa using this
   exact lineAct_recorded names nm (t ++ [d]) hm (by simpa [Spec.noSep] using hsep) _ htrim
 
+/-- the trimmed form of the printer's line for ANY label (in the batch or not) -/
+theorem trim_labelled (lbl text : List Char) (hn : startsClean lbl = true) (ht : endsClean text = true) :
+    trim ((lbl ++ ':' :: ' ' :: text) ++ ['\n']) = lbl ++ ':' :: ' ' :: text := by
+  obtain ⟨t, d, rfl, hd⟩ := endsClean_concat text ht
+  cases lbl with
+  | nil =>
+    have := trim_clean ':' (' ' :: t) d (by decide) hd
+    simpa using this
+  | cons c nm' =>
+    have hc : isSpace c = false := by simpa [startsClean] using hn
+    have := trim_clean c (nm' ++ ':' :: ' ' :: t) d hc hd
+    simpa using this
+
+/-- **What the reader does with the printer's line is decided by EXACT membership of the label among
+the batch's names** — for every label the framing can carry, whether or not it names a case: recorded
+for that very label if it is a name of the batch, forwarded as noise otherwise.  Nothing between the
+label and the names is normalised (no unescaping, no case folding, no trimming inside). -/
+theorem lineAct_label (names : List (List Char)) (lbl text : List Char)
+    (hsep : Spec.noSep lbl = true) (hn : startsClean lbl = true) (ht : endsClean text = true) :
+    lineAct names ((lbl ++ ':' :: ' ' :: text) ++ ['\n']) =
+      if names.contains lbl then .record lbl text else .forward ((lbl ++ ':' :: ' ' :: text) ++ ['\n']) := by
+  have htrim := trim_labelled lbl text hn ht
+  unfold lineAct
+  simp only [htrim]
+  have hne : (lbl ++ ':' :: ' ' :: text).isEmpty = false := by cases lbl <;> simp
+  simp only [hne, Bool.false_eq_true, if_false]
+  rw [splitSep_append lbl text (by simpa [Spec.noSep] using hsep)]
+
 /-- **The printer's line is recorded wherever it stands in the stream.** -/
 theorem recorded_in_stream (names : List (List Char)) (nm text : List Char)
     (hm : nm ∈ names) (hsep : Spec.noSep nm = true) (hn : startsClean nm = true) (hnl : oneLine nm = true)
